@@ -334,8 +334,15 @@ func cmdCheck(args []string) int {
 				pend = append(pend, r)
 			}
 		}
+		// many undecided obligations mean the tree changed: the report does not get better by
+		// spending a minute on each of them (one undischarged obligation is a violation already)
+		par := 2
+		if len(pend) > 6 {
+			pfT = pfT / 3
+			par = 4
+		}
 		var wg2 sync.WaitGroup
-		sem2 := make(chan struct{}, 2)
+		sem2 := make(chan struct{}, par)
 		for _, r := range pend {
 			wg2.Add(1)
 			go func(r *OblResult) {
@@ -355,7 +362,7 @@ func cmdCheck(args []string) int {
 		wg2.Wait()
 		// third pass: a FEW obligations left undecided (timeout/unknown, no model) are more
 		// likely a loaded machine than a broken property - they get one more portfolio run with
-		// three times the limit before they are reported. Many undecided obligations mean the
+		// twice the limit before they are reported. Many undecided obligations mean the
 		// tree really changed: no retry (the cost would only delay the report).
 		var again []*OblResult
 		for _, r := range pend {
@@ -363,13 +370,13 @@ func cmdCheck(args []string) int {
 				again = append(again, r)
 			}
 		}
-		if len(again) > 0 && len(again) <= 4 {
+		if len(again) > 0 && len(again) <= 3 {
 			var wg4 sync.WaitGroup
 			for _, r := range again {
 				wg4.Add(1)
 				go func(r *OblResult) {
 					defer wg4.Done()
-					rr, file := Portfolio(r.obl, SolverCfg{Timeout: 3 * pfT, WorkDir: work, Seed: seed + 1})
+					rr, file := Portfolio(r.obl, SolverCfg{Timeout: 2 * pfT, WorkDir: work, Seed: seed + 1})
 					r.Tried = append(r.Tried, "retry")
 					r.Tried = append(r.Tried, rr.Tried...)
 					r.Seconds += rr.Seconds
